@@ -184,6 +184,16 @@ class C19(Prop):
         for pw in list(range(2, 1101 if tier != "quick" else 700)) + [4095, 4096, 4097, 65535, 65536, 65537, 99999, 1000001, 16777217]:
             t = f"1 m^{pw}" if pw % 2 else f"1 s^-{pw}"
             out.append(Case(f"cli {C.hexs(t)} decimal", "power-range", t))
+        # every prefix on a handful of units, gram among them (it is stored as kilogram with a bias):
+        # the unit that is PRINTED must be the one that was typed
+        from .props_units import vocab as _vocab
+        _v = _vocab()
+        for pf in sorted({p_[0] for p_ in _v.prefixes if len(p_[0]) <= 2 and p_[0].isascii()}):
+            for u in ("g", "m", "s", "A", "K", "mol", "cd", "B", "N", "J", "W", "Pa", "l", "t", "V", "Hz"):
+                if pf + u == "dal":
+                    continue   # read as decilitre: the recorded logos finding of C05, not a printing matter
+                for t in (f"3 {pf}{u}", f"1 / 2 {pf}{u}"):
+                    out.append(Case(f"cli {C.hexs(t)} exact", "prefix-display", t))
         # orders of magnitude in the default decimal format (the printed exponent is a digit count)
         for k in list(range(13, 720, 11 if tier == "quick" else 1)) + [205, 206, 264, 351, 410, 469, 497]:
             for t in (f"10^{k}", f"1.002 * 10^{k}", f"1 / 10^{k}", f"3 m * 10^{k}"):
